@@ -216,7 +216,7 @@ where
                         MIN_REQUIRED
                     };
                     if remaining < req {
-                        *state = DecoderState::ReadingAddressedHeader(flags);
+                        *state = DecoderState::ReadingRegistration(flags);
                         break Ok(None);
                     }
                     let mut bytes = src.as_ref();
@@ -232,7 +232,7 @@ where
                     let lane_len = bytes.get_u64() as usize;
 
                     if bytes.remaining() < host_len + node_len + lane_len + ID_LEN {
-                        *state = DecoderState::ReadingAddressedHeader(flags);
+                        *state = DecoderState::ReadingRegistration(flags);
                         break Ok(None);
                     }
                     let host = if has_host {
